@@ -15,6 +15,36 @@ func init() {
 		ID: "C01", Level: "other", Patterns: []string{"./internal/crypto"},
 		Explain: "Decides, on every CFG path of the SessionKey method that calls cipher.AEAD.Open, that receive state is committed only after authentication succeeded, that rejection paths are side-effect free, that the received nonce's direction byte is compared with the expected receive direction before Open, that a counter below the expected one is rejected and the committed counter is received+1, and that check, Open and commit share one mutex region. AEAD unforgeability is trusted.",
 		Run:     runC01,
+		SelfTests: []SelfTest{
+			{Name: "commit before Open", ExpectRule: "C01.R1", Edits: []Edit{
+				{File: "internal/crypto/crypto.go", Old: "\t// Authenticated: advance the expected counter past this message.\n\ts.recvNonce = nonceValue + 1\n", New: ""},
+				{File: "internal/crypto/crypto.go", Old: "\tplaintext, err := aead.Open(", New: "\ts.recvNonce = nonceValue + 1\n\tplaintext, err := aead.Open("},
+			}},
+			{Name: "direction comparison dropped", ExpectRule: "C01.R3", Edits: []Edit{
+				{File: "internal/crypto/crypto.go", Old: "if !bytes.Equal(nonce[:4], expectedNonce[:4]) {", New: "if !bytes.Equal(expectedNonce[:4], expectedNonce[:4]) {"},
+			}},
+			{Name: "direction compared on counter bytes only", ExpectRule: "C01.R3", Edits: []Edit{
+				{File: "internal/crypto/crypto.go", Old: "if !bytes.Equal(nonce[:4], expectedNonce[:4]) {", New: "if !bytes.Equal(nonce[1:4], expectedNonce[1:4]) {"},
+			}},
+			{Name: "one replay tolerated", ExpectRule: "C01.R4", Edits: []Edit{
+				{File: "internal/crypto/crypto.go", Old: "if nonceValue < s.recvNonce {", New: "if nonceValue+1 < s.recvNonce {"},
+			}},
+			{Name: "counter not advanced past the message", ExpectRule: "C01.R4", Edits: []Edit{
+				{File: "internal/crypto/crypto.go", Old: "s.recvNonce = nonceValue + 1\n", New: "s.recvNonce = nonceValue\n"},
+			}},
+			{Name: "commit in a separate critical section after Open", ExpectRule: "C01.R5", Edits: []Edit{
+				{File: "internal/crypto/crypto.go", Old: "\ts.mu.Lock()\n\tdefer s.mu.Unlock()\n\n\t// The direction prefix", New: "\ts.mu.Lock()\n\n\t// The direction prefix"},
+				{File: "internal/crypto/crypto.go", Old: "\t\treturn nil, fmt.Errorf(\"nonce direction mismatch\")", New: "\t\ts.mu.Unlock()\n\t\treturn nil, fmt.Errorf(\"nonce direction mismatch\")"},
+				{File: "internal/crypto/crypto.go", Old: "\t\treturn nil, fmt.Errorf(\"nonce too old: received %d, expected >= %d\", nonceValue, s.recvNonce)\n\t}\n", New: "\t\ts.mu.Unlock()\n\t\treturn nil, fmt.Errorf(\"nonce too old\")\n\t}\n\ts.mu.Unlock()\n"},
+				{File: "internal/crypto/crypto.go", Old: "\t// Authenticated: advance the expected counter past this message.\n\ts.recvNonce = nonceValue + 1\n", New: "\ts.mu.Lock()\n\ts.recvNonce = nonceValue + 1\n\ts.mu.Unlock()\n"},
+			}},
+			{Name: "rewrite: direction byte compared by index", Edits: []Edit{
+				{File: "internal/crypto/crypto.go", Old: "if !bytes.Equal(nonce[:4], expectedNonce[:4]) {", New: "if nonce[0] != expectedNonce[0] || !bytes.Equal(nonce[1:4], expectedNonce[1:4]) {"},
+			}},
+			{Name: "rewrite: role consulted directly", Edits: []Edit{
+				{File: "internal/crypto/crypto.go", Old: "if !bytes.Equal(nonce[:4], expectedNonce[:4]) {", New: "if (nonce[0] == 0x80) != s.isInitiator || !bytes.Equal(nonce[1:4], expectedNonce[1:4]) {"},
+			}},
+		},
 	})
 }
 
@@ -361,6 +391,13 @@ func runC01(p *kit.Program, r *kit.Report) {
 		}
 		xr, xe, xi := side(b.X)
 		yr, ye, yi := side(b.Y)
+		// the received side must be the counter itself, not an arithmetic adjustment of it
+		if _, arith := b.X.(*ssa.BinOp); arith && xr {
+			continue
+		}
+		if _, arith := b.Y.(*ssa.BinOp); arith && yr {
+			continue
+		}
 		var op token.Token
 		switch {
 		case xr && ye && !xe && !yr:
